@@ -7,6 +7,8 @@ R18.3 view APIs hand out the stored objects: Molecule.__getitem__/__iter__ wrap 
       Atom.__setattr__ routes coordinate attributes to the wrapped coordinate atom
 R18.4 one body: move/move_to/rotate are defined once, on top of the virtual accessors, which range over all residues
 R18.5 the centre is the pivot (rotate) / the target (move_to)
+R18.6 every value deep_copy returns is built on a clone of the topology
+R18.7 a copy that clones the instance dictionary reassigns every attribute that is rebound or mutated after construction
 """
 from __future__ import annotations
 
